@@ -159,9 +159,19 @@ def _worker(index):
     mod, ctx = _G["mod"], _G["ctx"]
     t0 = time.time()
     try:
+        from . import progen
+        progen.LAST_FEATURES.clear()
         r = mod.case(ctx, index)
         if r is None:
             r = CaseResult().skip("none")
+        # A generated program that contains constructs of a family with reader defects of its own (anonymous types in
+        # compound positions, naming typedefs of anonymous types) says so in the key of every violation of its case:
+        # findings of that family and findings on mainstream programs never share a key.
+        if r.violations and progen.LAST_FEATURES:
+            sfx = ":program-with-" + "+".join(sorted(progen.LAST_FEATURES))
+            for v in r.violations:
+                if not v.key.endswith(sfx):
+                    v.key += sfx
     except build.BuildError:
         raise
     except Exception:
